@@ -239,7 +239,7 @@ func CopyFileContents(cfg *config.Configuration, src string, dst string) error {
 		return err
 	}
 	defer in.Close()
-	_, err = io.Copy(tmp, in)
+	_, err = io.Copy(tools.VerifWriter(tmp), in)
 	if err != nil {
 		return err
 	}
@@ -260,6 +260,7 @@ func LinkOrCopy(cfg *config.Configuration, src string, dst string) error {
 	if err == nil {
 		return err
 	}
+	tools.VerifTrace("fs.linkfail", src, dst)
 	return CopyFileContents(cfg, src, dst)
 }
 
